@@ -51,8 +51,20 @@ def DM(m, incl=False, consume=True, default=None):
     return {'k': 'data', 'mode': 'marker', 'm': m, 'incl': incl, 'consume': consume, 'default': default}
 
 
-def DR(pat, incl=True, consume=True, default=None):
-    return {'k': 'data', 'mode': 'regex', 'pat': pat, 'incl': incl, 'consume': consume, 'default': default}
+def DR(pat, incl=True, consume=True, default=None, flags=''):
+    # flags: letters of re flags the expression is compiled with ('I' ignore case, 'S' dot matches newline, 'M' multiline)
+    d = {'k': 'data', 'mode': 'regex', 'pat': pat, 'incl': incl, 'consume': consume, 'default': default}
+    if flags:
+        d['flags'] = flags
+    return d
+
+
+def re_flags(node):
+    import re
+    f = 0
+    for ch in node.get('flags') or '':
+        f |= getattr(re, ch)
+    return f
 
 
 def DEOS(default=None):
@@ -319,7 +331,7 @@ def node_src(node, fresh=False):
             if not node.get('consume', True):
                 args.append('consume_delimiter=False')
         elif mode == 'regex':
-            args = ['until_marker=re.compile(%r)' % node['pat']]
+            args = ['until_marker=re.compile(%r%s)' % (node['pat'], (', ' + ' | '.join('re.' + ch for ch in node['flags'])) if node.get('flags') else '')]
             if node.get('incl'):
                 args.append('include_delimiter=True')
             if not node.get('consume', True):
@@ -382,6 +394,8 @@ def node_src(node, fresh=False):
     if dsc:
         if dsc['k'] == 'autolength':
             s += ".describe(AutoLength(%r))" % dsc['of']
+        elif dsc['k'] == 'auto':
+            s += ".describe(Auto(lambda pkt: %s))" % expr_src(dsc['expr'], 'pkt.')
         else:
             raise ValueError(dsc)
     p = node.get('pos')
@@ -405,6 +419,10 @@ def until_src(u):
         return 'lambda pkt, **k: pkt.%s[-1]%s == %r' % (u['fname'], attr, u['v'])
     if u['u'] == 'len_eq':
         return 'lambda pkt, **k: len(pkt.%s) == %r' % (u['fname'], u['v'])
+    if u['u'] == 'last_and':          # a truth VALUE that is not a bool: 0 or the masked bit
+        return 'lambda pkt, **k: pkt.%s[-1] & %r' % (u['fname'], u['v'])
+    if u['u'] == 'last_val':          # ... the element itself: any non-zero element ends the list
+        return 'lambda pkt, **k: pkt.%s[-1]' % (u['fname'],)
     if u['u'] == 'at_end':
         return 'lambda pkt, raw, offset, **k: offset >= len(raw)'
     if u['u'] == 'off_ge':
@@ -419,6 +437,10 @@ def until_eval(u, lst, cur=None, P0=None, rawlen=None):
         if u.get('attr'):
             last = last.vals[u['attr']]
         return last == u['v']
+    if u['u'] == 'last_and':
+        return bool(lst[-1] & u['v'])
+    if u['u'] == 'last_val':
+        return bool(lst[-1])
     if u['u'] == 'at_end':
         return cur >= rawlen
     if u['u'] == 'off_ge':
